@@ -1,8 +1,8 @@
-(* The error range is on character boundaries EXCEPT in the two classified defect classes
-   (ErrRange.kf_range_end_in_char, ErrRange.kf_range_start_in_char).  The only fact about UTF-8 that is needed:
-   a continuation byte never follows an ASCII byte (cont_ok), which every valid UTF-8 text satisfies. *)
+(* Generic lemmas for the character-boundary theorem of Pos/ErrRangeProofs.v.  The only facts about UTF-8 that
+   are needed: a continuation byte never follows an ASCII byte (cont_ok) and a text does not begin with a
+   continuation byte; every valid UTF-8 text satisfies both (utf8_valid_fuel_cont_ok). *)
 From Coq Require Import ZifyBool ZifyNat ZifyN.
-From Cddl Require Import Base.Bytes Base.Utf8 Pos.Span Pos.SpanProofs Pos.ErrRange Pos.ErrRangeProofs.
+From Cddl Require Import Base.Bytes Base.Utf8 Pos.Span Pos.SpanProofs Pos.ErrRange.
 Open Scope N_scope.
 Arguments N.add : simpl never.
 Arguments N.mul : simpl never.
@@ -82,145 +82,12 @@ Proof.
   intros bs i H Hi. unfold char_boundary. rewrite H. apply skipnN_nil_iff in H. apply N.eqb_eq. lia.
 Qed.
 
-(* ---------- forward ---------- *)
-Lemma forward_end_boundary : forall bs index ch t,
-  cont_ok bs = true -> index <= lenN bs -> char_boundary bs index = true ->
-  skipnN index bs = ch :: t ->
-  compute_error_range index bs = (index, scan_token_end bs index) ->
-  kf_range_end_in_char bs index = false ->
-  char_boundary bs (scan_token_end bs index) = true.
-Proof.
-  intros bs index ch t Hc Hi Hb S E K.
-  pose proof (lenN_skipnN N bs index) as L. rewrite S, lenN_cons in L.
-  unfold kf_range_end_in_char in K. rewrite E in K. cbn [fst snd] in K. rewrite S in K.
-  unfold scan_token_end in *. rewrite S in *.
-  rewrite (char_boundary_head bs index ch t S) in Hb.
-  destruct (tok_first ch) eqn:TF.
-  - (* identifier / number: a run of ASCII token bytes *)
-    pose proof (skipnN_take_while N tok_char (ch :: t)) as D.
-    assert (S2 : skipnN (index + lenN (take_while tok_char (ch :: t))) bs = drop_while tok_char (ch :: t)).
-    { rewrite skipnN_add, S. exact D. }
-    pose proof (after_ascii_run tok_char (ch :: t) tok_char_ascii (eq_trans (eq_sym (f_equal cont_ok S)) (cont_ok_skipnN bs index Hc))) as A.
-    assert (Hne : take_while tok_char (ch :: t) <> []).
-    { cbn [take_while]. rewrite (tok_first_char ch TF). congruence. }
-    specialize (A Hne).
-    destruct (drop_while tok_char (ch :: t)) as [| y r] eqn:DW.
-    + apply char_boundary_end; [exact S2 |].
-      pose proof (lenN_take_while_le N tok_char (ch :: t)) as Le. rewrite lenN_cons in Le. lia.
-    + rewrite (char_boundary_head _ _ y r S2). rewrite A. reflexivity.
-  - (* single byte *)
-    assert (S2 : skipnN (index + 1) bs = t).
-    { rewrite skipnN_add, S. rewrite skipnN_cons by lia. apply skipnN_0. }
-    destruct t as [| b2 t'].
-    + apply char_boundary_end; [exact S2 |]. rewrite lenN_nil in L. lia.
-    + rewrite (char_boundary_head _ _ b2 t' S2).
-      rewrite N.eqb_refl in K. cbn [andb] in K.
-      destruct (N.leb_spec 128 ch) as [Hge | Hlt].
-      * destruct (is_cont ch); [discriminate |]. cbn [negb andb] in K.
-        rewrite N.eqb_refl, andb_true_r in K. rewrite K. reflexivity.
-      * assert (Hc2 : cont_ok (ch :: b2 :: t') = true) by (rewrite <- S; apply cont_ok_skipnN; exact Hc).
-        rewrite (cont_ok_pair ch b2 t' Hc2 Hlt). reflexivity.
-Qed.
-
-(* ---------- backward ---------- *)
+(* ---------- reversed prefixes ---------- *)
 Lemma rev_cons_split : forall (P : list N) sk x back',
   rev P = sk ++ x :: back' -> P = rev back' ++ x :: rev sk.
 Proof.
   intros P sk x back' H. rewrite <- (rev_involutive P), H, rev_app_distr. cbn [rev].
   rewrite <- app_assoc. reflexivity.
-Qed.
-
-Lemma backward_boundaries : forall bs index x back',
-  cont_ok bs = true -> index <= lenN bs -> char_boundary bs index = true ->
-  drop_while skipped (rev (firstnN index bs)) = x :: back' ->
-  (tok_char x = false -> lenN back' < index -> is_cont x = false) ->
-  char_boundary bs (scan_token_start bs (lenN (x :: back') - 1)) = true
-  /\ char_boundary bs (lenN (x :: back') - 1 + 1) = true.
-Proof.
-  intros bs index x back' Hc Hi Hb D Hx.
-  set (P := firstnN index bs) in *. set (R := skipnN index bs).
-  assert (HB : bs = P ++ R) by (symmetry; apply firstnN_skipnN).
-  pose proof (take_drop_while N skipped (rev P)) as TD. rewrite D in TD.
-  set (sk := take_while skipped (rev P)) in *.
-  pose proof (rev_cons_split P sk x back' (eq_sym TD)) as HP.
-  assert (Hsk : forall y, In y sk -> skipped y = true) by (intros y Hy; apply (take_while_all N skipped (rev P)); exact Hy).
-  assert (LP : lenN P = N.min index (lenN bs)) by apply lenN_firstnN.
-  assert (Hbs : bs = (rev back' ++ [x]) ++ rev sk ++ R).
-  { rewrite HB at 1. rewrite HP. rewrite <- !app_assoc. reflexivity. }
-  assert (Lpos : lenN (x :: back') - 1 = lenN (rev back')) by (rewrite lenN_cons, lenN_rev; lia).
-  assert (Lend : lenN (x :: back') - 1 + 1 = lenN (rev back' ++ [x])).
-  { rewrite lenN_app, lenN_rev, lenN_cons. change (lenN [x]) with 1. lia. }
-  assert (LPlen : lenN P = lenN back' + 1 + lenN sk).
-  { rewrite HP, lenN_app, lenN_rev, lenN_cons, lenN_rev. lia. }
-  split.
-  - (* start *)
-    rewrite Lpos. unfold scan_token_start.
-    assert (S1 : skipnN (lenN (rev back')) bs = x :: rev sk ++ R).
-    { rewrite Hbs at 1. rewrite <- app_assoc. rewrite skipnN_app_len. reflexivity. }
-    rewrite S1. destruct (tok_char x) eqn:TC.
-    + assert (F1 : firstnN (lenN (rev back')) bs = rev back').
-      { rewrite Hbs at 1. rewrite <- app_assoc. apply firstnN_app_len. }
-      rewrite F1, rev_involutive.
-      pose proof (take_drop_while N tok_char back') as TD2.
-      set (tw := take_while tok_char back') in *. set (dw := drop_while tok_char back') in *.
-      assert (Ha : lenN (rev back') - lenN tw = lenN (rev dw)).
-      { rewrite !lenN_rev. rewrite <- TD2 at 1. rewrite lenN_app. lia. }
-      rewrite Ha.
-      assert (S2 : skipnN (lenN (rev dw)) bs = rev tw ++ x :: rev sk ++ R).
-      { rewrite Hbs at 1. rewrite <- TD2 at 1. rewrite rev_app_distr. rewrite <- !app_assoc. rewrite skipnN_app_len. reflexivity. }
-      destruct (rev tw) as [| z tz] eqn:RT.
-      * cbn [app] in S2. rewrite (char_boundary_head _ _ _ _ S2). rewrite (ascii_not_cont x (tok_char_ascii x TC)). reflexivity.
-      * cbn [app] in S2. rewrite (char_boundary_head _ _ _ _ S2).
-        assert (In z tw) as Hz. { apply in_rev. rewrite RT. left. reflexivity. }
-        rewrite (ascii_not_cont z (tok_char_ascii z (take_while_all N tok_char back' z Hz))). reflexivity.
-    + rewrite (char_boundary_head _ _ _ _ S1). rewrite Hx; [reflexivity | reflexivity |]. rewrite lenN_rev in *. lia.
-  - (* end *)
-    rewrite Lend.
-    assert (S3 : skipnN (lenN (rev back' ++ [x])) bs = rev sk ++ R).
-    { rewrite Hbs at 1. apply skipnN_app_len. }
-    destruct (rev sk) as [| y ty] eqn:RS.
-    + (* nothing skipped: the end is pest's offset *)
-      assert (sk = []) as Esk. { rewrite <- (rev_involutive sk), RS. reflexivity. }
-      rewrite Esk, lenN_nil in LPlen.
-      assert (lenN (rev back' ++ [x]) = index) as Eidx.
-      { rewrite lenN_app, lenN_rev. change (lenN [x]) with 1. lia. }
-      rewrite Eidx. exact Hb.
-    + cbn [app] in S3. rewrite (char_boundary_head _ _ _ _ S3).
-      assert (In y sk) as Hy. { apply in_rev. rewrite RS. left. reflexivity. }
-      rewrite (ascii_not_cont y (skipped_ascii y (Hsk y Hy))). reflexivity.
-Qed.
-
-(* ---------- the theorem ---------- *)
-(* on text in which no continuation byte follows an ASCII byte (all valid UTF-8), with pest's offset on a
-   character boundary, the reported range is on character boundaries unless the case falls in one of the
-   two classified defect classes *)
-Theorem err_range_on_char_boundary_unless_kf : forall bs index,
-  cont_ok bs = true -> index <= lenN bs -> char_boundary bs index = true ->
-  kf_range_end_in_char bs index = false -> kf_range_start_in_char bs index = false ->
-  char_boundary bs (fst (compute_error_range index bs)) = true
-  /\ char_boundary bs (snd (compute_error_range index bs)) = true.
-Proof.
-  intros bs index Hc Hi Hb K1 K2.
-  destruct (compute_error_range_cases index bs) as [(ch & t & S & Sk & Lt & E) | E].
-  - rewrite E. cbn [fst snd]. split; [exact Hb |].
-    apply (forward_end_boundary bs index ch t Hc Hi Hb S E K1).
-  - rewrite E. unfold kf_range_start_in_char in K2. rewrite E in K2. unfold back_range in *.
-    destruct (drop_while skipped (rev (firstnN index bs))) as [| x back'] eqn:D.
-    + cbn [fst snd]. auto.
-    + cbn [fst snd] in *. apply (backward_boundaries bs index x back' Hc Hi Hb D).
-      intros TC Hlt.
-      assert (Lpos : lenN (x :: back') - 1 = lenN back') by (rewrite lenN_cons; lia).
-      (* scan_token_start returns pos itself when bytes[pos] is not a token byte *)
-      pose proof (take_drop_while N skipped (rev (firstnN index bs))) as TD. rewrite D in TD.
-      set (sk := take_while skipped (rev (firstnN index bs))) in *.
-      pose proof (rev_cons_split _ sk x back' (eq_sym TD)) as HP.
-      assert (S1 : skipnN (lenN back') bs = x :: rev sk ++ skipnN index bs).
-      { rewrite <- (firstnN_skipnN N bs index) at 1. rewrite HP. rewrite <- app_assoc. cbn [app].
-        rewrite <- (lenN_rev N back'). rewrite skipnN_app_len. reflexivity. }
-      rewrite Lpos in K2. unfold scan_token_start in K2. rewrite S1, TC in K2.
-      rewrite S1 in K2.
-      destruct (N.ltb_spec (lenN back') index) as [_ | Hge]; [| lia].
-      rewrite N.eqb_refl in K2. cbn [andb] in K2. exact K2.
 Qed.
 
 (* ---------- every valid UTF-8 text satisfies cont_ok ---------- *)
@@ -266,20 +133,21 @@ Qed.
 Lemma utf8_valid_cont_ok : forall bs, utf8_valid bs = true -> cont_ok bs = true.
 Proof. intros bs H. apply (utf8_valid_fuel_cont_ok _ bs H). Qed.
 
-(* THE PARTIAL THEOREM at its strongest: the full statement with exactly the two classified classes excluded *)
-Theorem err_range_on_char_boundary_unless_classified : forall bs index,
-  utf8_valid bs = true -> index <= lenN bs -> char_boundary bs index = true ->
-  kf_range_end_in_char bs index = false -> kf_range_start_in_char bs index = false ->
-  char_boundary bs (fst (compute_error_range index bs)) = true
-  /\ char_boundary bs (snd (compute_error_range index bs)) = true.
-Proof.
-  intros bs index Hv. apply err_range_on_char_boundary_unless_kf. apply utf8_valid_cont_ok. exact Hv.
-Qed.
 
-(* non-vacuity: a backward case over CRLF and a multi-byte comment that is not in a defect class *)
-Example unless_classified_example :
-  let bs := [97; 32; 61; 32; 120; 32; 59; 32; 195; 169; 13; 10; 32; 47] in
-  utf8_valid bs = true /\ char_boundary bs 14 = true
-  /\ kf_range_end_in_char bs 14 = false /\ kf_range_start_in_char bs 14 = false
-  /\ compute_error_range 14 bs = (13, 14).
-Proof. vm_compute. auto. Qed.
+Lemma drop_while_head : forall A (p : A -> bool) l x r, drop_while p l = x :: r -> p x = false.
+Proof.
+  induction l as [| y l IH]; intros x r H; [discriminate |]. cbn [drop_while] in H.
+  destruct (p y) eqn:E; [apply (IH x r H) |]. injection H as <- _. exact E.
+Qed.
+Lemma lenN_take_while_le : forall A (p : A -> bool) l, lenN (take_while p l) <= lenN l.
+Proof.
+  induction l as [| x l IH]; [cbn; lia |]. cbn [take_while]. destruct (p x).
+  - rewrite !lenN_cons. lia.
+  - rewrite lenN_nil, lenN_cons. lia.
+Qed.
+Lemma lenN_drop_while_le : forall A (p : A -> bool) l, lenN (drop_while p l) <= lenN l.
+Proof.
+  induction l as [| x l IH]; [cbn; lia |]. cbn [drop_while]. destruct (p x).
+  - rewrite lenN_cons. lia.
+  - lia.
+Qed.
